@@ -228,6 +228,9 @@ fn worker_body(prop: &'static dyn Prop, args: WorkerArgs) {
   let strategy = proptest::collection::vec(any::<u32>(), 0..params.tape_len.max(2));
   let stats_cell = RefCell::new(stats);
   let failed = std::cell::Cell::new(false);
+  // the first failing case as observed (kept in case the shrunk case does not reproduce, which is
+  // inherent to properties about non-determinism)
+  let first_failure: RefCell<Option<Value>> = RefCell::new(None);
   let tier = args.tier;
   let progress = PathBuf::from(format!("{}.progress", args.out.display()));
   let result = runner.run(&strategy, |tape_vec| {
@@ -266,6 +269,9 @@ fn worker_body(prop: &'static dyn Prop, args: WorkerArgs) {
       return Ok(());
     }
     if let Some(f) = unknown.first() {
+      if !failed.get() {
+        *first_failure.borrow_mut() = Some(json!({"sig": f.sig, "detail": f.detail, "artifact": art, "origin": "search (as first observed; the shrunk case did not reproduce)"}));
+      }
       failed.set(true);
       Err(TestCaseError::fail(f.sig.clone()))
     } else {
@@ -280,7 +286,10 @@ fn worker_body(prop: &'static dyn Prop, args: WorkerArgs) {
         let o = checked(prop, &art);
         let unknown = unknown_failures(&o, &known);
         if unknown.is_empty() {
-          stats.failures.push(json!({"sig": "harness/non-reproducible-after-shrink", "detail": reason.message().to_string(), "tape": tape_vec, "artifact": art, "origin": "search"}));
+          match first_failure.borrow_mut().take() {
+            Some(f) => stats.failures.push(f),
+            None => stats.failures.push(json!({"sig": "harness/non-reproducible-after-shrink", "detail": reason.message().to_string(), "tape": tape_vec, "artifact": art, "origin": "search"})),
+          }
         }
         for fl in unknown {
           stats.failures.push(json!({"sig": fl.sig, "detail": fl.detail, "tape": tape_vec, "artifact": art, "origin": "search"}));
